@@ -75,7 +75,15 @@ pub struct Pos {
 #[derive(Clone, Debug, Serialize, Deserialize, PartialEq, Eq)]
 pub enum Change {
     Full { text: String },
-    Edit { start: Pos, end: Pos, text: String },
+    Edit {
+        start: Pos,
+        end: Pos,
+        text: String,
+        /// The deprecated `rangeLength` field, as sent (None = field absent). VS Code sends
+        /// the length of the replaced range in UTF-16 code units.
+        #[serde(default)]
+        range_length: Option<u32>,
+    },
 }
 
 /// One step of an editor session on the document (file `unit.st` of a workspace folder)
@@ -116,6 +124,14 @@ pub struct Case {
     /// Variant of `lib.st` present in the workspace when the session starts.
     #[serde(default)]
     pub lib0: Option<u8>,
+    /// `languageId` sent with didOpen (None = "structured-text").
+    #[serde(default)]
+    pub language_id: Option<String>,
+    /// Document version of the first didOpen and the steps by which the following
+    /// didChange versions grow (cycled; empty = 1, +1, +1, ...). Versions only have to
+    /// increase, editors skip numbers.
+    #[serde(default)]
+    pub versions: Vec<u16>,
 }
 
 impl Case {
@@ -429,11 +445,32 @@ pub fn case_from_tapes(text_tape: &Tape, tape: &Tape) -> Case {
             }
             6 => Op::LibDelete,
             7 => Op::WatchEcho { event: 1 + r.pick(3) as u8 },
-            _ => Op::Note(gen_note(&mut r, &mut buf, eol_mode)),
+            _ => {
+                if r.weighted(&[12, 1, 12]) == 1 {
+                    // didChange with an empty contentChanges array: allowed, changes nothing
+                    Op::Note(Vec::new())
+                } else {
+                    Op::Note(gen_note(&mut r, &mut buf, eol_mode))
+                }
+            }
         };
         ops.push(op);
     }
-    Case { s0, notes: Vec::new(), ops, lib0 }
+    let language_id = match r.weighted(&[4, 1, 1, 1, 1, 1]) {
+        0 => None,
+        1 => Some("st"),
+        2 => Some("iec-st"),
+        3 => Some("plaintext"),
+        4 => Some("ST"),
+        _ => Some("structured-text"),
+    }
+    .map(str::to_string);
+    let versions: Vec<u16> = if r.flag() {
+        Vec::new()
+    } else {
+        (0..1 + r.pick(5)).map(|_| *r.choose(&[1u16, 1, 2, 3, 7, 100, 0])).collect()
+    };
+    Case { s0, notes: Vec::new(), ops, lib0, language_id, versions }
 }
 
 fn gen_note(r: &mut Reader, buf: &mut String, eol_mode: usize) -> Vec<Change> {
@@ -507,8 +544,21 @@ fn gen_note(r: &mut Reader, buf: &mut String, eol_mode: usize) -> Vec<Change> {
             let sp = lsp_pos(&buf, start, &mut r);
             // an empty range is sent with start == end (an editor never sends start > end)
             let ep = if end == start { sp.clone() } else { lsp_pos(&buf, end, &mut r) };
+            // deprecated `rangeLength`: absent, correct (UTF-16 units of the replaced range, as
+            // VS Code sends it) or - robustness class, rare, in the middle of the list - wrong
+            let correct = utf16_len(&buf[start..end]) as u32;
+            let range_length = match r.weighted(&[3, 5, 1, 3]) {
+                0 => None,
+                2 => Some(match r.pick(4) {
+                    0 => 0,
+                    1 => buf[start..end].chars().count() as u32,
+                    2 => (end - start) as u32,
+                    _ => u32::MAX,
+                }),
+                _ => Some(correct),
+            };
             buf.replace_range(start..end, &text);
-            changes.push(Change::Edit { start: sp, end: ep, text });
+            changes.push(Change::Edit { start: sp, end: ep, text, range_length });
         }
         changes
     }
@@ -526,6 +576,13 @@ struct Facts {
     past_eol_crlf: bool,
     full: bool,
     multi: bool,
+    rl_absent: bool,
+    rl_correct: bool,
+    /// a correct rangeLength for a replaced range that contains an astral character
+    rl_correct_astral: bool,
+    /// classes of wrong rangeLength values sent (robustness class)
+    rl_wrong: Vec<&'static str>,
+    empty_note: bool,
     disk_write: bool,
     disk_write_differs: bool,
     disk_delete: bool,
@@ -546,13 +603,27 @@ fn apply_change(buf: &mut String, ch: &Change, facts: &mut Facts) -> Option<()> 
             *buf = text.clone();
             facts.full = true;
         }
-        Change::Edit { start, end, text } => {
+        Change::Edit { start, end, text, range_length } => {
             let s = position_to_offset(buf, start.line, start.ch)?;
             let e = position_to_offset(buf, end.line, end.ch)?;
             if s > e {
                 return None;
             }
             facts.edits += 1;
+            let replaced = &buf[s..e];
+            match range_length {
+                None => facts.rl_absent = true,
+                Some(n) if *n as usize == utf16_len(replaced) => {
+                    facts.rl_correct = true;
+                    if replaced.chars().any(|c| c.len_utf16() == 2) {
+                        facts.rl_correct_astral = true;
+                    }
+                }
+                Some(0) => facts.rl_wrong.push("zero"),
+                Some(n) if *n as usize == replaced.chars().count() => facts.rl_wrong.push("chars"),
+                Some(n) if *n as usize == replaced.len() => facts.rl_wrong.push("bytes"),
+                Some(_) => facts.rl_wrong.push("huge"),
+            }
             let ls = line_starts(buf)[start.line as usize];
             let before = &buf[ls..s];
             if before.chars().any(|c| c.len_utf16() == 2) {
@@ -589,13 +660,19 @@ fn apply_change(buf: &mut String, ch: &Change, facts: &mut Facts) -> Option<()> 
 fn change_json(ch: &Change) -> J {
     match ch {
         Change::Full { text } => json!({"text": text}),
-        Change::Edit { start, end, text } => json!({
-            "range": {
-                "start": {"line": start.line, "character": start.ch},
-                "end": {"line": end.line, "character": end.ch},
-            },
-            "text": text,
-        }),
+        Change::Edit { start, end, text, range_length } => {
+            let mut v = json!({
+                "range": {
+                    "start": {"line": start.line, "character": start.ch},
+                    "end": {"line": end.line, "character": end.ch},
+                },
+                "text": text,
+            });
+            if let Some(n) = range_length {
+                v["rangeLength"] = json!(n);
+            }
+            v
+        }
     }
 }
 
@@ -693,6 +770,9 @@ fn simulate(case: &Case) -> Option<Outcome> {
             Op::Note(changes) => {
                 if changes.len() > 1 {
                     facts.multi = true;
+                }
+                if changes.is_empty() {
+                    facts.empty_note = true;
                 }
                 for ch in &changes {
                     apply_change(&mut buf, ch, &mut facts)?;
@@ -801,12 +881,31 @@ fn run_a(s: &mut Server, p: &Place, case: &Case, out: &Outcome) -> Result<Answer
         s.watched(&[(&p.lib_uri, 1)])?;
     }
     io(std::fs::write(p.main_path(), &case.s0), "write unit.st")?;
-    s.did_open(&p.uri, 1, &case.s0)?;
-    let mut version = 1;
+    let lang = case.language_id.as_deref().unwrap_or("structured-text");
+    let open = |s: &mut Server, version: i64, text: &str| {
+        s.notify(
+            "textDocument/didOpen",
+            json!({"textDocument": {"uri": p.uri, "languageId": lang, "version": version, "text": text}}),
+        )
+    };
+    // versions: start value and steps from the case (monotone; a step of 0 is sent as 1)
+    let mut steps_v = case.versions.iter().map(|v| *v as i64);
+    let mut version = steps_v.next().unwrap_or(1);
+    let mut k = 0usize;
+    let mut next_step = move || -> i64 {
+        if case.versions.len() < 2 {
+            return 1;
+        }
+        let v = case.versions[1 + k % (case.versions.len() - 1)] as i64;
+        k += 1;
+        v.max(1)
+    };
+    let _ = &mut steps_v;
+    open(s, version, &case.s0)?;
     for step in &out.steps {
         match step {
             Step::Change(changes) => {
-                version += 1;
+                version += next_step();
                 s.did_change(&p.uri, version, changes.clone())?;
             }
             Step::WriteMain(t) => io(std::fs::write(p.main_path(), t), "write unit.st")?,
@@ -831,8 +930,8 @@ fn run_a(s: &mut Server, p: &Place, case: &Case, out: &Outcome) -> Result<Answer
                 s.notify("textDocument/didClose", json!({"textDocument": {"uri": p.uri}}))?;
             }
             Step::Open(t) => {
-                version = 1;
-                s.did_open(&p.uri, version, t)?;
+                version += next_step();
+                open(s, version, t)?;
             }
         }
     }
@@ -1096,6 +1195,13 @@ fn check_case(case: &Case, probe: &mut Probe, env: &Env) -> Result<(), String> {
         (facts.full, "change:full"),
         (facts.multi, "note:multi-change"),
         (facts.multiline_edit, "edit:multi-line"),
+        (facts.rl_absent, "rangeLength:absent"),
+        (facts.rl_correct, "rangeLength:correct(utf16)"),
+        (facts.rl_correct_astral, "rangeLength:correct-over-astral-range"),
+        (!facts.rl_wrong.is_empty(), "rangeLength:wrong(robustness-class)"),
+        (facts.empty_note, "note:empty-contentChanges"),
+        (case.language_id.is_some(), "languageId:variant"),
+        (case.versions.len() > 1, "versions:with-gaps"),
         (facts.disk_write, "op:disk-write+watch"),
         (facts.disk_write_differs, "op:disk-write-differs-from-buffer"),
         (facts.disk_delete, "op:disk-delete+watch"),
@@ -1120,6 +1226,21 @@ fn check_case(case: &Case, probe: &mut Probe, env: &Env) -> Result<(), String> {
         _ => "5-12",
     }));
 
+    // A failure of a session that contains a wrong rangeLength names that class.
+    let class_note = if facts.rl_wrong.is_empty() {
+        String::new()
+    } else {
+        let mut kinds = facts.rl_wrong.clone();
+        kinds.sort();
+        kinds.dedup();
+        for k in &kinds {
+            probe.label(format!("rangeLength:wrong={k}"));
+        }
+        format!(
+            "[robustness class: the session contains a change whose deprecated rangeLength is wrong ({}); LSP 3.17: rangeLength is deprecated, the range is authoritative] ",
+            kinds.join(", ")
+        )
+    };
     let k = env.counter.get();
     env.counter.set(k + 1);
     let Some(ws_a) = env.pool.workspace_dir() else {
@@ -1131,7 +1252,7 @@ fn check_case(case: &Case, probe: &mut Probe, env: &Env) -> Result<(), String> {
     let res_a = env.pool.with(|s| run_a(s, &place_a, case, &out));
     // whatever happened: nothing of this case may be left for the indexer of a restarted server
     let _ = std::fs::remove_dir_all(&place_a.dir);
-    let Some(a) = settle(res_a)? else {
+    let Some(a) = settle(res_a).map_err(|m| format!("{class_note}{m}"))? else {
         probe.label("skipped:infrastructure");
         return Ok(());
     };
@@ -1186,7 +1307,7 @@ fn check_case(case: &Case, probe: &mut Probe, env: &Env) -> Result<(), String> {
     ] {
         if x != y {
             return Err(format!(
-                "server text diverged from the editor's: {what} of the document after the session differs from the same request on a freshly opened copy of the editor's buffer (same folder contents): {}\n  editor buffer: {:?}\n  file on disk: {:?}",
+                "{class_note}server text diverged from the editor's: {what} of the document after the session differs from the same request on a freshly opened copy of the editor's buffer (same folder contents): {}\n  editor buffer: {:?}\n  file on disk: {:?}",
                 first_diff(x, y),
                 clip(&buf, 300),
                 out.disk.as_deref().map(|d| clip(d, 120))
